@@ -208,7 +208,7 @@ func genTests(r *Rng, c *GenCfg, n *Node) {
 						t.L = append(t.L, VS(Pick(r, strDomain)))
 					}
 				case "contains", "prefix", "suffix":
-					t.S = Pick(r, []string{"a", "ab", "h", "z", "1", "lo", "!", "a", "ab", "h", ""}) // the empty needle is in every string
+					t.S = Pick(r, []string{"a", "ab", "h", "z", "1", "lo", "!", "a", "ab", "h", "", "$id_", "US$5", "${x}"}) // the empty needle is in every string
 				}
 				if k != "min" && k != "max" && r.P(0.2) {
 					t.Not = true
